@@ -154,6 +154,7 @@ def check(c):
 
     t2 = time.time()
     accepted = []
+    suspicious = []
     outcome = collections.Counter()
     for i, cs in enumerate(cases):
         origin, mk, off, b = cs
@@ -196,6 +197,8 @@ def check(c):
                 c.notes.append('validation observed: %s at %d rejected' % (mk, off))
                 continue
             c.violation('accept-reject-differs-from-model', dict(replay, kind='impl-vs-model', layer='L2 accept/reject'), no_input=True)
+            if ik == 'ok':
+                suspicious.append(i)     # accepted although the model rejects: search for a crash on it below
             continue
         if A > 4096 and A > observed:
             # the implementation pre-allocated less than the model of the pinned reader predicts (a capped or
@@ -213,6 +216,16 @@ def check(c):
             accepted.append((i, ents))
     c.extra['outcomes_impl_model'] = {'%s/%s' % k: v for k, v in sorted(outcome.items())}
 
+    # the tie broke on images the implementation accepts and the model rejects: look for a property violation
+    # on them (their variables and kinds as the non-validating reader sees them)
+    if suspicious:
+        suspicious = suspicious[:400]
+        lo = c.model(S.AREA, [S.mline('entries', S.cfg_pinned(sizes), cases[i][3]) for i in suspicious], cross=False)
+        for i, o in zip(suspicious, lo):
+            kk, pp = kind_of(o)
+            if kk == 'ok':
+                accepted.append((i, S.split_entries(pp)))
+                cases[i] = (cases[i][0], 'variant', cases[i][2], cases[i][3])   # never sampled away
     # ---- evaluation battery on accepted images ---------------------------
     # every accepted structure-aware variant, a sample of the other accepted images (all in thorough tier);
     # per variable an operation battery chosen by the kind of the loaded value (ser_common.battery)
